@@ -156,7 +156,14 @@ Definition apply_fx (c : conn) (f : pfx) : conn :=
   | FxKeysOneRtt => set_pair (set_keys c EOneRtt true) pair_init
   end.
 
-Definition reserved_mask (e : epoch) : Z := if epoch_eqb e EOneRtt then RESERVED_MASK_SHORT else RESERVED_MASK_LONG.
+(* protocol constants (RFC 9000 17.2 / 17.3.1 / 20.1) are LITERALS here, so that the tie compares the code with them; the values read
+   from the source (gen/C02Recv.v) are proved equal to them in packet_recv_as_modelled.  MAX_ACK_RANGES and ACK_DELAY_MS are tuning
+   parameters of the implementation and are taken from the source. *)
+Definition M_RESERVED_SHORT : Z := 24.        (* 0x18 *)
+Definition M_RESERVED_LONG : Z := 12.         (* 0x0C *)
+Definition M_PROTOCOL_VIOLATION : Z := 10.    (* 0x0A *)
+Definition M_SPIN_BIT : Z := 32.              (* 0x20 *)
+Definition reserved_mask (e : epoch) : Z := if epoch_eqb e EOneRtt then M_RESERVED_SHORT else M_RESERVED_LONG.
 Definition reserved_set (r : rpacket) : bool := negb (Z.land (r_first r) (reserved_mask (r_epoch r)) =? 0).
 
 (* "record packet as received", the body of `if not space.discarded:` *)
@@ -183,7 +190,7 @@ Section Frames.
     let c4 := if c_peer_latched c3 then c3 else latch_peer c3 (r_scid r) in
     let c5 := if c_connected c4 then c4 else set_connected c4 (r_scid r) in
     let c6 := if epoch_eqb e EOneRtt && (pn >? c_spin_highest c5)
-              then set_spin c5 (let b := negb (Z.land (r_first r) SPIN_BIT =? 0) in if c_is_client c5 then negb b else b) pn
+              then set_spin c5 (let b := negb (Z.land (r_first r) M_SPIN_BIT =? 0) in if c_is_client c5 then negb b else b) pn
               else c5 in
     let fr := frames (r_payload r) in
     let c7 := fold_left apply_fx (f_fx fr) (deliver c6 (r_payload r)) in
@@ -208,7 +215,7 @@ Section Frames.
         | Opened p' =>
             (* CryptoPair.decrypt_packet has already applied a remote key update *)
             let c1 := set_pair c p' in
-            if reserved_set r then set_close c1 PROTOCOL_VIOLATION_CODE else process c1 r now
+            if reserved_set r then set_close c1 M_PROTOCOL_VIOLATION else process c1 r now
         end
     end.
 
